@@ -673,7 +673,7 @@ func (e *Exec) conv(tDst, tSrc types.Type, x Value) Value {
 			case kiS.isInt && kiD.isStr:
 				s := x.(Sc)
 				if s.T != nil {
-					e.unsupported("string(symbolic rune)")
+					return e.runeToStr(s, kiS)
 				}
 				v := int64(s.C)
 				if v < 0 || v > utf8.MaxRune {
@@ -771,3 +771,26 @@ func (e *Exec) cut(reason string) {
 }
 
 var _ = math.MaxInt64
+
+// runeToStr implements string(r) for a symbolic integer: 1- and 2-byte UTF-8 encodings are built
+// symbolically, anything larger ends the path as unsupported.
+func (e *Exec) runeToStr(s Sc, ki kindInfo) Str {
+	c := e.ctx
+	t := s.T
+	w := t.W
+	if e.branch(e.boolSc(e.ultConst(t, 0x80))) {
+		return Str{b: []Sc{e.fromTermT(c.Extract(t, 7, 0), byteKI)}}
+	}
+	if w > 8 && !e.branch(e.boolSc(e.ultConst(t, 0x800))) {
+		e.unsupported("string(symbolic rune >= 0x800)")
+	}
+	var t16 *Term
+	if w >= 16 {
+		t16 = c.Extract(t, 15, 0)
+	} else {
+		t16 = c.Zext(t, 16-w)
+	}
+	b0 := c.Bin(OpBOr, c.BV(0xC0, 8), c.Extract(c.Bin(OpLshr, t16, c.BV(6, 16)), 7, 0))
+	b1 := c.Bin(OpBOr, c.BV(0x80, 8), c.Bin(OpBAnd, c.Extract(t16, 7, 0), c.BV(0x3F, 8)))
+	return Str{b: []Sc{e.fromTermT(b0, byteKI), e.fromTermT(b1, byteKI)}}
+}
